@@ -15,6 +15,7 @@ into the polarity and the comparison operators canonicalised (``a != b`` == not 
 from __future__ import annotations
 
 import ast
+import re
 import typing as t
 
 from .cfg import CFG, Def, Node, walk_no_nested
@@ -429,6 +430,14 @@ class Normalizer:
         kws = sorted(f"{k.arg}={X(k.value)}" if k.arg else f"**{X(k.value)}" for k in e.keywords)
         if fn.startswith('builtins.'):
             fn = fn[len('builtins.'):]
+        if fn.startswith('LAMBDA(') and fn.endswith(')') and not kws and len(args) <= 3 and _balanced(fn[7:-1]) \
+                and not any(a.startswith('*') for a in args):
+            # an immediately applied lambda (a callback handed to an inlined helper): beta-reduce
+            body = fn[7:-1]
+            if not re.search(r'λ(\d+)', body) or max(int(x) for x in re.findall(r'λ(\d+)', body)) < len(args):
+                for i, a in enumerate(args):
+                    body = re.sub(r'λ%d(?!\d)' % i, a.replace('\\', '\\\\'), body)
+                return body
         return f"{fn}({', '.join(args + kws)})"
 
     def class_set(self, e: ast.expr, node: Node, bound: t.Dict[str, str], depth: int) -> str:
@@ -494,10 +503,15 @@ class Normalizer:
         if not rets or len(rets) > 4:
             return None
         from .cfg import cfg_of
-        sub_cfg = cfg_of(self.model, f)
-        sub = Normalizer(self.model, f, sub_cfg, param_map=pm, inline_unique_methods=self.inline_unique_methods)
+        if self.func_hook is not None:
+            f2 = self.func_hook(f, pm)
+            sub_cfg = cfg_of(self.model, f) if f2 is f else CFG(self.model, f2)
+            f = f2
+        else:
+            sub_cfg = cfg_of(self.model, f)
+        sub = Normalizer(self.model, f, sub_cfg, param_map=pm, inline_unique_methods=self.inline_unique_methods, func_hook=self.func_hook)
         forms = set()
-        for n in sub_cfg.nodes:
+        for n in sub_cfg.live_nodes():
             if n.kind == 'return' and n.ast is not None and n.ast.value is not None:
                 forms.add(sub.expr(n.ast.value, n, None, depth + 1))
         if not forms:
@@ -642,12 +656,32 @@ class Normalizer:
             return s, True
         if isinstance(test, ast.Constant):
             return repr(bool(test.value)), True
+        if isinstance(test, ast.Name) and test.id not in bound and depth < 8 and self.rd.is_local(test.id):
+            # a local flag defined once by a comparison / negation / isinstance test: the literal of that expression
+            defs = self.rd.at(node, test.id)
+            if len(defs) == 1 and defs[0].kind == 'assign' and defs[0].value is not None and not defs[0].path:
+                dv = defs[0].value
+                if isinstance(dv, ast.Compare) or (isinstance(dv, ast.UnaryOp) and isinstance(dv.op, ast.Not)) \
+                        or (isinstance(dv, ast.Call) and isinstance(dv.func, ast.Name) and dv.func.id in ('isinstance', 'issubclass', 'hasattr', 'callable')):
+                    return self.literal(t.cast(ast.expr, dv), defs[0].node, bound, depth + 1)
         s = self.expr(test, node, bound, depth + 1)
         if s.startswith('not '):
             return s[4:], False
         if isinstance(test, (ast.Name, ast.Attribute, ast.Subscript)):
             return f"TRUTHY({s})", True
         return s, True
+
+
+def _balanced(text: str) -> bool:
+    depth = 0
+    for ch in text:
+        if ch in '([{':
+            depth += 1
+        elif ch in ')]}':
+            depth -= 1
+            if depth < 0:
+                return False
+    return depth == 0
 
 
 _CTX_BUSY: t.Set[str] = set()
